@@ -483,6 +483,57 @@ Fixpoint gov_close (pool : N) (deps : list N) : res (list (N * N * N) * N) :=
   end.
 
 (* ------------------------------------------------------------------ *)
+(* (f) incoming runtime messages -- apps/roothash/transactions.go:320-410 (SubmitMsg),
+   messages.go:22-106 and finalization.go:167-181 (round finalization).
+   One queue per runtime: the stored messages (their sequence numbers, in order) and the
+   size counter of the queue metadata. *)
+Record rq := mkRQ { q_size : N; q_next : N; q_msgs : list N }.
+
+(* SubmitMsg: None = the transaction fails (queue full) *)
+Definition rq_submit (maxq : N) (r : rq) : option rq :=
+  if maxq <=? q_size r then None
+  else Some (mkRQ (q_size r + 1) (q_next r + 1) (q_msgs r ++ [q_next r])).
+
+(* removeRuntimeMessages (messages.go:57-106): each fetched message is removed from the
+   runtime's queue, the size counter must not be zero ("inconsistent queue size": an
+   unavailable-state error, FATAL) and is decremented *)
+Fixpoint remove_msgs (fetched : list N) (size : N) (msgs : list N) : res (N * list N) :=
+  match fetched with
+  | [] => Ok (size, msgs)
+  | m :: r =>
+      let msgs1 := filter (fun x => negb (x =? m)) msgs in
+      if size =? 0 then Fatal else remove_msgs r (size - 1) msgs1
+  end.
+
+(* IncomingMessageQueue(runtime, 0, limit) (state.go:246-281): the first [limit] messages of
+   THIS runtime's queue; fetchRuntimeMessages returns nothing for limit 0 *)
+Definition fetch_own (r : rq) (count : N) : list N := firstn (N.to_nat count) (q_msgs r).
+
+(* the part of round finalization that touches the queue, for a committed in-message count and
+   whether the committed hash equals the hash of the fetched messages.
+   Output: None = the round fails (not fatal), Some = the queue afterwards. *)
+Definition finalize_inmsgs (r : rq) (count : N) (hash_ok : bool) : res (option rq) :=
+  let fetched := fetch_own r count in
+  if negb hash_ok then Ok None                             (* finalization.go:175-178 failRound *)
+  else do x <- remove_msgs fetched (q_size r) (q_msgs r) ;  (* :179-181 *)
+       let '(sz, ms) := x in Ok (Some (mkRQ sz (q_next r) ms)).
+
+(* the seeded variant: the iterator runs on into the NEXT runtime's queue *)
+Definition finalize_inmsgs_overrun (r : rq) (foreign : list N) (count : N) : res (option rq) :=
+  let fetched := firstn (N.to_nat count) (q_msgs r ++ foreign) in
+  do x <- remove_msgs fetched (q_size r) (q_msgs r) ;
+  let '(sz, ms) := x in Ok (Some (mkRQ sz (q_next r) ms)).
+
+(* all runtimes: runtime id -> queue *)
+Definition sys_finalize (sys : list (N * rq)) (id count : N) (hash_ok : bool) : res (list (N * rq)) :=
+  match aget id sys with
+  | None => Ok sys
+  | Some r =>
+      do o <- finalize_inmsgs r count hash_ok ;
+      match o with None => Ok sys | Some r1 => Ok (aset id r1 sys) end
+  end.
+
+(* ------------------------------------------------------------------ *)
 (* correspondence: one sum type of calls and outputs *)
 Inductive call :=
 | CFeeP (total wP wV wQ : N) (known : bool)
@@ -491,6 +542,7 @@ Inductive call :=
 | CRewardSeq (rden cden factor : N) (scale : option N) (accts : list (N * N * N)) (pool : N)
 | CSigning (rden cden tnum tden total factor : N) (scale : option N) (ents : list (N * N * N * N)) (pool : N)
 | CGovClose (pool : N) (deps : list N)
+| CInMsg (size count : N) (hash_ok : bool)   (* a queue holding [size] messages 0..size-1 *)
 | CSlash (active deb amount : N)
 | CDebond (bal ts shares : N)
 | CTally (validators delegs : list (N * N * N)) (votes : list (N * vote)) (threshold : N).
@@ -525,6 +577,12 @@ Definition run_call (c : call) : outv :=
       match rewards_seq rd cd f sc ac p with Ok (l, q) => OSeq l q | Fatal => OFatal end
   | CSigning rd cd tn td tot f sc en p =>
       match signing_path rd cd tn td tot f sc en p with Ok (l, q) => OSeq l q | Fatal => OFatal end
+  | CInMsg sz c hk =>
+      match finalize_inmsgs (mkRQ sz sz (map N.of_nat (seq 0 (N.to_nat sz)))) c hk with
+      | Ok None => ONone
+      | Ok (Some r) => OOne (q_size r)
+      | Fatal => OFatal
+      end
   | CGovClose p ds =>
       match gov_close p ds with Ok (l, q) => OSeq l q | Fatal => OFatal end
   | CSlash a d m =>
